@@ -26,7 +26,7 @@ FAMILIES_OF = {
     "C16": ["snapshot"],
     "C20": ["cache"],
 }
-SIZES = {"quick": 400, "thorough": 5000}
+SIZES = {"quick": 1000, "thorough": 20000}
 
 DUMP_ATTACH = ('\n#[cfg(verif_cert)]\n#[path = "%s"]\nmod verif_cert;\n')
 VARMAP_ACCESSOR = ('\n#[cfg(verif_cert)]\nimpl VariableMap {\n    pub(crate) fn verif_next_id(&self) -> usize {\n'
@@ -64,14 +64,43 @@ def _worker_cmd():
     return [VT, os.path.join(VERIF, "lib", "cert_worker.py")]
 
 
+SHARDS = int(os.environ.get("VERIF_CERT_SHARDS", "8"))
+
+
+def _merge(parts):
+    out = dict(parts[0])
+    for p in parts[1:]:
+        for k in ("universes", "solves", "queries", "learnt_clauses", "graphs", "relevant", "hangs", "cvc5_cross_checked"):
+            out[k] = out.get(k, 0) + p.get(k, 0)
+        out["solver_time"] = round(out["solver_time"] + p["solver_time"], 2)
+        for k in ("families", "verdicts", "by_kind"):
+            d = dict(out[k])
+            for a, b in p[k].items():
+                d[a] = d.get(a, 0) + b
+            out[k] = d
+        out["samples"] = (out["samples"] + p["samples"])[:6]
+        out["violations"] = out["violations"] + p["violations"]
+    out["violations"].sort(key=lambda v: (v["family"], v["universe"]["id"], v["profile"]))
+    return out
+
+
 def sweep(bins, prop, tier, seed, families=None, n=None, only_ids=None):
-    """Runs lib/cert_worker.py (python3-vt: z3) and returns its JSON summary."""
-    req = {"prop": prop, "families": families or FAMILIES_OF[prop], "n": n or SIZES[tier], "seed": seed,
-           "bins": bins, "only_ids": only_ids}
-    p = subprocess.run(_worker_cmd(), input=json.dumps(req), capture_output=True, text=True, timeout=6 * 3600)
-    if p.returncode != 0:
-        raise Inconclusive("certificate worker failed (rc=%s): %s" % (p.returncode, p.stderr[-1500:]))
-    return json.loads(p.stdout.strip().split("\n")[-1])
+    """Runs lib/cert_worker.py (python3-vt: z3) in SHARDS parallel processes, each on every SHARDS-th universe of every
+    family, and returns the merged JSON summary."""
+    import concurrent.futures as cf
+    base = {"prop": prop, "families": families or FAMILIES_OF[prop], "n": n or SIZES[tier], "seed": seed,
+            "bins": bins, "only_ids": only_ids}
+    k = max(1, SHARDS)
+
+    def one(i):
+        req = dict(base, shard=[i, k])
+        p = subprocess.run(_worker_cmd(), input=json.dumps(req), capture_output=True, text=True, timeout=8 * 3600)
+        if p.returncode != 0:
+            raise Inconclusive("certificate worker %d/%d failed (rc=%s): %s" % (i, k, p.returncode, p.stderr[-1500:]))
+        return json.loads(p.stdout.strip().split("\n")[-1])
+    with cf.ThreadPoolExecutor(max_workers=k) as ex:
+        parts = list(ex.map(one, range(k)))
+    return _merge(parts)
 
 
 def finding_key(prop, what):
